@@ -494,6 +494,16 @@ func (in *Interp) roundF(e *sym.Term, bits int) *sym.Term {
 	}
 	d := B.Mul(ae, u)
 	in.assume(B.And(B.Le(B.Sub(e, d), r), B.Le(r, B.Add(e, d))))
+	// int -> float of a symbolic integer: exact whenever its magnitude fits the mantissa
+	if e.Op == sym.OToReal {
+		mant := 53
+		if bits == 32 {
+			mant = 24
+		}
+		x := e.Args[0]
+		lim := B.Int(pow2(mant))
+		in.assume(B.Implies(B.And(B.Le(B.Neg(lim), x), B.Le(x, lim)), B.Eq(r, e)))
+	}
 	// correctly rounded operations are exact when the exact result is representable:
 	// every integer of magnitude <= 2^mantissa is
 	// (only the cheap, common shape: integer / integer-constant that divides evenly)
